@@ -59,7 +59,8 @@ pub struct Keyspace {
     pub worker_messager: WorkerSender,
 }
 impl Keyspace {
-    #[verifier::external_body] pub fn path(&self) -> (r: &PathBuf) { unimplemented!() }
+    // Keyspace::path: the folder of this keyspace's own tree
+    #[verifier::external_body] pub fn path(&self) -> (r: &PathBuf) ensures r.id@ == folder_of(self.tree.id@) { unimplemented!() }
 }
 /// the handle is consistent with the world: same tree identity, the DATABASE's poison flag (C13: one flag per
 /// instance, established by Keyspace::from_database / create_new in U-META), its persist mode is the tree's
